@@ -243,9 +243,10 @@ Section Eval.
       (let k := key_of st f idx in
         match m with
         | Wr =>
-          (* sz = SizeT(str.length()); str.resize(sz): the string is cut in place to the wrapped length *)
+          (* the string is cut in place to the longest one the size prefix can express (2^(8w)-1 bytes;
+             block strings never ask for a terminating NUL), then size and bytes are written *)
           let s0 := get_blob st k in
-          let sz := Z.to_N (wrapZ w false (Z.of_nat (length s0))) in
+          let sz := N.min (N.of_nat (length s0)) (2 ^ (8 * w) - 1) in
           let s1 := firstn (N.to_nat sz) s0 in
           let st1 := set_blob st k s1 in
           Ok (emit (emit st1 (le_bytes (N.to_nat w) (Z.of_N sz))) s1)
@@ -354,3 +355,29 @@ Definition syncir_consumed (st : state) : bool := (remaining st =? 0) && negb (e
 Definition syncir_eof (st : state) : bool := eof st.
 Definition syncir_nlog (st : state) : N := N.of_nat (length (reflog st)).
 Definition syncir_warn (st : state) : bool := warn st.
+
+(* ---- which fields did a run alter? (used on the model to observe "saving alters the object") ----
+   names of the scalar / size / blob fields having at least one instance with a different value in b than in a;
+   an absent instance counts as the default (0, 0, empty) *)
+Definition pm2_altered {A} (eqb : A -> A -> bool) (dflt : A) (m1 m2 : PM.t (PM.t A)) : list N :=
+  let one (ma mb : PM.t (PM.t A)) :=
+    PM.fold (fun n inner acc =>
+      if PM.fold (fun k x bad => bad || negb (eqb x (match find2 mb (n, k) with Some y => y | None => dflt end))) inner false
+      then Pos.pred_N n :: acc else acc) ma [] in
+  one m1 m2 ++ one m2 m1.
+Fixpoint list_N_eqb (a b : list N) : bool :=
+  match a, b with [], [] => true | x :: r, y :: s => (x =? y) && list_N_eqb r s | _, _ => false end.
+(* reference arrays are compacted by a write (CleanInvalidRefs): that normal-form step is not an alteration *)
+Fixpoint syncir_refarr_names (s : stmt) : list N :=
+  match s with
+  | SSeq a b => syncir_refarr_names a ++ syncir_refarr_names b
+  | SIf _ t e => syncir_refarr_names t ++ syncir_refarr_names e
+  | SFor _ _ b => syncir_refarr_names b
+  | SRefArrHead fsize _ frefs fidx _ _ | SCleanRefs fsize _ frefs fidx _ => [fsize; frefs; fidx]
+  | _ => []
+  end.
+Definition syncir_altered (prog : stmt) (a b : state) : list N * (list N * list N) :=
+  let skip := syncir_refarr_names prog in
+  let keep := filter (fun n => negb (existsb (N.eqb n) skip)) in
+  (keep (pm2_altered Z.eqb 0%Z (ints a) (ints b)),
+   (keep (pm2_altered N.eqb 0 (sizes a) (sizes b)), keep (pm2_altered list_N_eqb [] (blobs a) (blobs b)))).
